@@ -2030,7 +2030,12 @@ func (e *executor) executeSetRow(ctx context.Context, index string, c *pql.Call,
 	}
 
 	result, err := e.mapReduce(ctx, index, shards, c, opt, mapFn, reduceFn)
-	return result.(bool), err
+	if err != nil {
+		// result is nil when a shard failed; asserting it panics
+		return false, err
+	}
+	b, _ := result.(bool)
+	return b, nil
 }
 
 // executeSetRowShard executes a SetRow() call for a single shard.
